@@ -282,7 +282,15 @@ def build_world(block):
         inputs = ["zeros"]
     else:
         raise KeyError(mv)
-    hedger = Hedger(model, inputs)
+    cls = Hedger
+    if block.get("subclass"):
+        # a user subclass that post-processes the positions through the public, documented method
+        # (round lots of 1/4): "the hedge it computes" is then the overridden one
+        class RoundLotHedger(Hedger):
+            def compute_hedge(self, derivative, hedge=None):
+                return super().compute_hedge(derivative, hedge=hedge).mul(4).round().div(4)
+        cls = RoundLotHedger
+    hedger = cls(model, inputs)
     return hedger, deriv, hedge, (stock, stock2, listed)
 
 
@@ -376,7 +384,7 @@ def _hedger_round(ctx, block, hedger, deriv, hedge, exact, r):
                     mini["rounds"] = [0]
                 zero_cost = any(c == 0 for c in costs) and any(c != 0 for c in costs)
                 ctx.violation("Hedger." + name,
-                              f"identity_{block['hedge']}" + ("_mixedcost" if zero_cost else "") + ("_multiplier" if block.get("multiplier") else "") + (f"_round{r}" if r else ""),
+                              f"identity_{block['hedge']}" + ("_mixedcost" if zero_cost else "") + ("_multiplier" if block.get("multiplier") else "") + ("_subclass" if block.get("subclass") else "") + (f"_round{r}" if r else ""),
                               f"{name} != wealth identity on hedge list {block['hedge']} "
                               f"(model={block['model']}, derivative={block['derivative']}, costs={costs}, "
                               f"after {r} re-simulation(s))",
@@ -502,6 +510,11 @@ def run(ctx):
             b6["rounds"] = [0]
             b6["pnl"] = False
             ctx.run("hedger_pl", b6)
+        if T == 3 and dk == "european" and mv in ("linear", "linear_prev", "bs") and hv in ("default", "stock+listed", "stock+stock2"):
+            b8 = dict(block)
+            b8["subclass"] = True
+            b8["rounds"] = [0, 1]
+            ctx.run("hedger_pl", b8)
         if T == 3 and hv == "default" and dtype == "float64" and mv in ("linear", "linear_prev", "bs") and dk in ("european", "lookback"):
             b7 = dict(block)
             b7["swap"] = True
